@@ -15,8 +15,13 @@ pub enum Verdict {
     Differs(String),
 }
 
+/// set by a check when the known finding `unicode-escape-not-lua51` is listed for it
+pub static ALLOW_LUAU_ESCAPES: std::sync::atomic::AtomicBool = std::sync::atomic::AtomicBool::new(false);
+
 pub struct OrigRun {
     pub luau_only: bool,
+    /// calls of the original whose `(` starts a new line (such programs are not compared on that point)
+    pub ambiguous_calls: usize,
     /// per dialect: Some(outcome) when the original is in the domain under that dialect
     pub lua51: Option<Outcome>,
     pub luau: Option<Outcome>,
@@ -52,7 +57,7 @@ pub fn run_original(text: &str, make_cfg: &dyn Fn(Dialect) -> Config) -> Result<
     let luau_dialect_events = luaref::take_dialect_events();
     let lua51_out = p51.as_ref().map(|p| luaref::run(&p.block, &make_cfg(Dialect::Lua51)));
     let luau_only = p51.is_none();
-    let mut r = OrigRun { luau_only, lua51: None, luau: None, luau_dialect_events, lua51_target: false };
+    let mut r = OrigRun { luau_only, ambiguous_calls: p_luau.ambiguous_calls.len(), lua51: None, luau: None, luau_dialect_events, lua51_target: false };
     if in_domain(&luau_out) {
         r.luau = Some(luau_out);
     }
@@ -115,6 +120,14 @@ pub fn compare(orig: &OrigRun, transformed: &str, make_cfg: &dyn Fn(Dialect) -> 
         Ok(p) => p,
         Err(e) => return Verdict::Differs(format!("output is not valid Luau: {} at line {}", e.msg, e.line)),
     };
+    // Luau reports a call whose `(` starts a new line as an error ("Ambiguous syntax: this looks
+    // like an argument list for a function call, but could also be a start of new statement")
+    if orig.ambiguous_calls == 0 && !t_luau.ambiguous_calls.is_empty() {
+        return Verdict::Differs(format!(
+            "the output has a call whose `(` starts a new line (token #{}): Lua 5.1 and Luau reject it as ambiguous syntax",
+            t_luau.ambiguous_calls[0]
+        ));
+    }
     let mut dialects = 0;
     let mut n_emits = 0;
     if let Some(o) = &orig.luau {
@@ -152,8 +165,14 @@ pub fn compare(orig: &OrigRun, transformed: &str, make_cfg: &dyn Fn(Dialect) -> 
             }
             dialects += 1;
             n_emits = emits(o);
-        } else if orig.luau.is_none() {
-            return Verdict::Differs("a Lua 5.1 program was transformed into text that is not valid Lua 5.1".into());
+        } else if let Err(e) = luasyn::parse(transformed, Mode::Lua51) {
+            // rules never introduce Luau syntax. The one listed exception: the dense / readable
+            // generators write non-ASCII text with the Luau-only \u{...} escape (known finding
+            // C07-unicode-escape-not-lua51, documented for literals by C13)
+            let known_escape = e.msg.contains("escape sequence") && ALLOW_LUAU_ESCAPES.load(std::sync::atomic::Ordering::Relaxed);
+            if !known_escape {
+                return Verdict::Differs(format!("a Lua 5.1 program was transformed into text that is not valid Lua 5.1: {} at line {}", e.msg, e.line));
+            }
         }
     }
     Verdict::Same { dialects, emits: n_emits }
